@@ -167,6 +167,7 @@ def main(argv=None):
             print("VIOLATION property=%s replay=%s" % (pid, a.replay))
             return 1
         return 0 if r.get("reproduced") is False else 3
+    os.environ["TLV_TIER"] = a.tier
     cfgs = meta.configs(a.tier, seed)
     if a.only:
         cfgs = [c for c in cfgs if a.only in c.get("name", "")]
